@@ -109,6 +109,8 @@ func checkC05(ctx *Ctx, r *Report) {
 	c05Registration(ctx, r)
 	c05Removal(ctx, r)
 	c05Parsers(ctx, r)
+	c05ParserErrors(ctx, r)
+	c05FreshRefsBacked(ctx, r)
 }
 
 // ---------------------------------------------------------------------------
@@ -1099,4 +1101,321 @@ func c05RenameGuardShape(ctx *Ctx, r *Report, p passInfo, nameFields map[*types.
 			return true
 		})
 	}
+}
+
+// ---------------------------------------------------------------------------
+// c05ParserErrors: the front-ends register a definition's name before walking it (so that recursive definitions
+// resolve) and add the object only once the walk succeeded. That is sound only because a failed walk fails the whole
+// parse: an error swallowed on the way up leaves the name registered and every later `$ref` to it yields a reference to
+// an object that was never added. Rule: in the three front-end packages, the error returned by a call to one of the
+// package's own functions is tested in the statement that follows, and the `err != nil` branch leaves the function
+// returning a non-nil error.
+func c05ParserErrors(ctx *Ctx, r *Report) {
+	n := 0
+	errT := types.Universe.Lookup("error").Type()
+	for _, rel := range []string{"internal/jsonschema", "internal/openapi", "internal/simplecue"} {
+		p := ctx.Pkg(rel)
+		if p == nil {
+			r.Undecided("anchor lost: package %s", rel)
+			continue
+		}
+		info := p.TypesInfo
+		for _, file := range p.Syntax {
+			for _, d := range file.Decls {
+				fd, ok := d.(*ast.FuncDecl)
+				if !ok || fd.Body == nil {
+					continue
+				}
+				fobj, _ := info.Defs[fd.Name].(*types.Func)
+				seen := map[string]int{}
+				parents := parentMap(fd)
+				var visitBlock func(list []ast.Stmt)
+				checkCall := func(call *ast.CallExpr, errObj types.Object, follow []ast.Stmt, self *ast.IfStmt) {
+					fn := callee(info, call)
+					if fn == nil || fn.Pkg() != p.Types {
+						return
+					}
+					sig, _ := fn.Type().(*types.Signature)
+					if sig == nil || sig.Results().Len() == 0 || !types.Identical(sig.Results().At(sig.Results().Len()-1).Type(), errT) {
+						return
+					}
+					n++
+					name := fn.Name()
+					seen[name]++
+					cons := fmt.Sprintf("%s checks the error of %s #%d", ctx.FuncName(fobj), name, seen[name])
+					// the test: `self` (if with init) or the next statement
+					var test *ast.IfStmt
+					if self == nil && len(follow) == 0 {
+						follow = continuation(parents, call)
+					}
+					if self != nil {
+						test = self
+					} else if len(follow) > 0 {
+						test, _ = follow[0].(*ast.IfStmt)
+					}
+					why := ""
+					switch {
+					case errObj == nil:
+						why = "the error result is discarded"
+					case test == nil:
+						// `return g.walk(…)`-like uses never reach here; a missing test is a dropped error unless the next statement returns err
+						if len(follow) > 0 {
+							if rs, ok := follow[0].(*ast.ReturnStmt); ok && len(rs.Results) > 0 {
+								if id, ok := ast.Unparen(rs.Results[len(rs.Results)-1]).(*ast.Ident); ok && objOf(info, id) == errObj {
+									break
+								}
+							}
+						}
+						why = "the statement that follows does not test the error"
+					default:
+						// walk the if / else-if chain: the branch whose condition is `err != nil` (alone or in a conjunction)
+						found := false
+						for cur := test; cur != nil; {
+							if condTestsNonNil(info, cur.Cond, errObj) {
+								found = true
+								if !blockReturnsError(info, cur.Body, errT) && !endsInPanic(cur.Body) {
+									why = "the `err != nil` branch does not leave the function with an error (it continues, or returns nil)"
+								}
+								break
+							}
+							next, _ := cur.Else.(*ast.IfStmt)
+							cur = next
+						}
+						if !found {
+							why = "the statement that follows does not test the error against nil"
+						}
+					}
+					r.Check(why == "", "flow/parser-error-propagated", cons, call.Pos(), "a failed walk fails the parse",
+						fmt.Sprintf("%s: %s. The front-end registers a definition's name before walking it; when the walk's error is swallowed the name stays registered while the object is never added, so a later reference to it dangles (and a construct cog cannot represent disappears silently instead of failing the run)", ctx.FuncName(fobj), why))
+				}
+				visitBlock = func(list []ast.Stmt) {
+					for i, st := range list {
+						switch x := st.(type) {
+						case *ast.AssignStmt:
+							if len(x.Rhs) == 1 {
+								if call, ok := ast.Unparen(x.Rhs[0]).(*ast.CallExpr); ok {
+									var errObj types.Object
+									if id, ok := x.Lhs[len(x.Lhs)-1].(*ast.Ident); ok && id.Name != "_" {
+										errObj = objOf(info, id)
+									}
+									checkCall(call, errObj, list[i+1:], nil)
+								}
+							}
+						case *ast.ExprStmt:
+							if call, ok := ast.Unparen(x.X).(*ast.CallExpr); ok {
+								checkCall(call, nil, nil, nil)
+							}
+						case *ast.IfStmt:
+							if as, ok := x.Init.(*ast.AssignStmt); ok && len(as.Rhs) == 1 {
+								if call, ok := ast.Unparen(as.Rhs[0]).(*ast.CallExpr); ok {
+									var errObj types.Object
+									if id, ok := as.Lhs[len(as.Lhs)-1].(*ast.Ident); ok && id.Name != "_" {
+										errObj = objOf(info, id)
+									}
+									checkCall(call, errObj, nil, x)
+								}
+							}
+						}
+					}
+				}
+				ast.Inspect(fd.Body, func(m ast.Node) bool {
+					switch x := m.(type) {
+					case *ast.BlockStmt:
+						visitBlock(x.List)
+					case *ast.CaseClause:
+						visitBlock(x.Body)
+					}
+					return true
+				})
+			}
+		}
+	}
+	r.Count("front-end calls whose error must fail the parse", n)
+	r.Floor("front-end calls whose error must fail the parse", 40)
+}
+
+func condTestsNonNil(info *types.Info, cond ast.Expr, obj types.Object) bool {
+	cond = ast.Unparen(cond)
+	if be, ok := cond.(*ast.BinaryExpr); ok {
+		if be.Op == token.LAND {
+			return condTestsNonNil(info, be.X, obj) || condTestsNonNil(info, be.Y, obj)
+		}
+		if be.Op == token.NEQ {
+			for _, pr := range [][2]ast.Expr{{be.X, be.Y}, {be.Y, be.X}} {
+				if id, ok := ast.Unparen(pr[0]).(*ast.Ident); ok && objOf(info, id) == obj && isNilIdent(info, pr[1]) {
+					return true
+				}
+			}
+		}
+	}
+	return false
+}
+
+// the block's last statement is a return whose last result is an error-typed expression other than nil
+func blockReturnsError(info *types.Info, b *ast.BlockStmt, errT types.Type) bool {
+	if len(b.List) == 0 {
+		return false
+	}
+	rs, ok := b.List[len(b.List)-1].(*ast.ReturnStmt)
+	if !ok || len(rs.Results) == 0 {
+		return false
+	}
+	last := rs.Results[len(rs.Results)-1]
+	if isNilIdent(info, last) {
+		return false
+	}
+	t := info.TypeOf(last)
+	return t != nil && types.AssignableTo(t, errT)
+}
+
+func endsInPanic(b *ast.BlockStmt) bool {
+	if len(b.List) == 0 {
+		return false
+	}
+	if es, ok := b.List[len(b.List)-1].(*ast.ExprStmt); ok {
+		if c, ok := es.X.(*ast.CallExpr); ok {
+			if id, ok := c.Fun.(*ast.Ident); ok && id.Name == "panic" {
+				return true
+			}
+		}
+	}
+	return false
+}
+
+// continuation: the statements executed after the one containing n when that one is the last of its block: the
+// followers of the enclosing if / switch / block statement, climbing while nothing follows. Loops and function literals
+// stop the climb (falling off a loop body runs the loop again).
+func continuation(parents map[ast.Node]ast.Node, n ast.Node) []ast.Stmt {
+	var cur ast.Node = n
+	for cur != nil {
+		par := parents[cur]
+		switch x := par.(type) {
+		case *ast.BlockStmt:
+			switch parents[x].(type) {
+			case *ast.SwitchStmt, *ast.TypeSwitchStmt, *ast.SelectStmt:
+				// the clauses of a switch do not follow one another
+			default:
+				for i, st := range x.List {
+					if ast.Node(st) == cur {
+						if i+1 < len(x.List) {
+							return x.List[i+1:]
+						}
+					}
+				}
+			}
+		case *ast.CaseClause:
+			for i, st := range x.Body {
+				if ast.Node(st) == cur {
+					if i+1 < len(x.Body) {
+						return x.Body[i+1:]
+					}
+				}
+			}
+		case *ast.ForStmt, *ast.RangeStmt, *ast.FuncLit, *ast.FuncDecl:
+			return nil
+		}
+		cur = par
+	}
+	return nil
+}
+
+// c05FreshRefsBacked: a pass that builds a reference to a name it computed itself (not a name read from an existing
+// reference or object) must know that an object of that name exists *in that package*: either it creates the object in
+// the same function (ast.NewObject with the same name), or the reference is built under a test that asks the visitor /
+// the schema for that very (package, name) pair. A private memory of names ("already generated") says nothing about the
+// package at hand.
+func c05FreshRefsBacked(ctx *Ctx, r *Report) {
+	pkg := ctx.Pkg("internal/ast/compiler")
+	newRef := ctx.LookupFunc("internal/ast", "NewRef")
+	newObject := ctx.LookupFunc("internal/ast", "NewObject")
+	if pkg == nil || newRef == nil || newObject == nil {
+		r.Undecided("anchor lost: ast.NewRef / ast.NewObject")
+		return
+	}
+	info := pkg.TypesInfo
+	n := 0
+	for _, file := range pkg.Syntax {
+		for _, d := range file.Decls {
+			fd, ok := d.(*ast.FuncDecl)
+			if !ok || fd.Body == nil {
+				continue
+			}
+			fobj, _ := info.Defs[fd.Name].(*types.Func)
+			parents := parentMap(fd)
+			k := 0
+			ast.Inspect(fd.Body, func(m ast.Node) bool {
+				call, ok := m.(*ast.CallExpr)
+				if !ok || callee(info, call) != newRef || len(call.Args) < 2 {
+					return true
+				}
+				nameID, ok := ast.Unparen(call.Args[1]).(*ast.Ident)
+				if !ok {
+					return true // a name read from an object / reference / the configuration
+				}
+				v, ok := objOf(info, nameID).(*types.Var)
+				if !ok || v.IsField() {
+					return true
+				}
+				n++
+				k++
+				pkgArg := exprString(call.Args[0])
+				backed := ""
+				// (a) created in this function
+				ast.Inspect(fd.Body, func(q ast.Node) bool {
+					if c, ok := q.(*ast.CallExpr); ok && callee(info, c) == newObject && len(c.Args) >= 2 && c.Pos() < call.Pos() {
+						if id, ok := ast.Unparen(c.Args[1]).(*ast.Ident); ok && objOf(info, id) == v {
+							backed = "the object is created in the same function (ast.NewObject with the same name)"
+						}
+					}
+					return true
+				})
+				// (b) built under an existence test on the same pair
+				if backed == "" {
+					for _, ce := range enclosingConds(parents, call) {
+						if ce.inElse {
+							continue
+						}
+						ast.Inspect(ce.stmt.Cond, func(q ast.Node) bool {
+							c, ok := q.(*ast.CallExpr)
+							if !ok {
+								return true
+							}
+							fn := callee(info, c)
+							if fn == nil {
+								return true
+							}
+							switch fn.Name() {
+							case "HasNewObject", "LocateObject", "LocateObjectByRef", "Has":
+							default:
+								return true
+							}
+							mentionsName, mentionsPkg := false, false
+							ast.Inspect(c, func(z ast.Node) bool {
+								if id, ok := z.(*ast.Ident); ok && objOf(info, id) == v {
+									mentionsName = true
+								}
+								if e, ok := z.(ast.Expr); ok && exprString(e) == pkgArg {
+									mentionsPkg = true
+								}
+								return true
+							})
+							// schema.LocateObject(name): the receiver is the schema whose package is used
+							if sel, ok := c.Fun.(*ast.SelectorExpr); ok && strings.HasPrefix(pkgArg, exprString(sel.X)+".") {
+								mentionsPkg = true
+							}
+							if mentionsName && mentionsPkg {
+								backed = "built under `" + exprString(ce.stmt.Cond) + "`, which asks for this package and name"
+							}
+							return true
+						})
+					}
+				}
+				r.Check(backed != "", "traverse/fresh-ref-backed", fmt.Sprintf("%s reference to computed name %s #%d", ctx.FuncName(fobj), nameID.Name, k), call.Pos(), backed,
+					fmt.Sprintf("%s builds a reference to %s.%s, a name it computed, without creating that object in the same function and without asking the visitor / schema whether (%s, %s) exists: in a package where the object was not generated the reference dangles", ctx.FuncName(fobj), pkgArg, nameID.Name, pkgArg, nameID.Name))
+				return true
+			})
+		}
+	}
+	r.Count("references to computed names built by passes", n)
+	r.Floor("references to computed names built by passes", 3)
 }
